@@ -322,6 +322,18 @@ func (f *Frame) dispatch(st *State, e *ast.CallExpr, fn *types.Func, recv *Term,
 	if m, ok := models[full]; ok {
 		return m(f, st, e, recv, args, sig)
 	}
+	if rn, ok := recordedExternals[full]; ok {
+		rs := f.havocResults(st, sig)
+		var ev *Term
+		for i := len(rs) - 1; i >= 0; i-- {
+			if rs[i].Sort == SIfc {
+				ev = rs[i]
+				break
+			}
+		}
+		f.recordCall(st, rn, ev)
+		return rs
+	}
 	for _, p := range pureIfacePrefixes {
 		if strings.HasPrefix(full, p) {
 			c.note("interface method " + shortFuncName(full) + " modelled as a pure function of (receiver, arguments; pointer-to-struct arguments by content)")
@@ -369,7 +381,18 @@ func (f *Frame) dispatch(st *State, e *ast.CallExpr, fn *types.Func, recv *Term,
 		if err := f.eng.bindContract(ct); err != nil {
 			panic(unsupported{err.Error()})
 		}
-		return f.contractCall(st, e, ct, recv, args, sig)
+		rs := f.contractCall(st, e, ct, recv, args, sig)
+		if rn := ct.Opts["record"]; rn != "" {
+			var ev *Term
+			for i := len(rs) - 1; i >= 0; i-- {
+				if rs[i].Sort == SIfc {
+					ev = rs[i]
+					break
+				}
+			}
+			f.recordCall(st, rn, ev)
+		}
+		return rs
 	}
 	fi := f.eng.funcs[orig]
 	if fi != nil && f.depth < maxInlineDepth && !f.onStack(orig) && !c.eng.noInline[full] {
